@@ -74,6 +74,25 @@ def closerOK (signer owner : Addr) (isAdmin : Bool) : Bool := signer == owner ||
 def openTakesOK (traderBefore traderAfter clpBefore clpAfter collAmt : Nat) : Bool :=
   traderAfter + collAmt == traderBefore && clpAfter == clpBefore + collAmt
 
+/-- the ledger part of two pool records agrees -/
+def sameLedgerB (p0 p : Pool) : Bool :=
+  p0.sym == p.sym && p0.nCust == p.nCust && p0.eCust == p.eCust && p0.nLiab == p.nLiab && p0.eLiab == p.eLiab
+
+/-- the ledger part of two position records agrees -/
+def mtpSameB (m0 m : Mtp) : Bool :=
+  m0.key == m.key && m0.custody == m.custody && m0.liab == m.liab && m0.coll == m.coll && m0.cust == m.cust && m0.pos == m.pos
+
+/-- the world the BeginBlocker hands to the processing of one position: the in-memory position is
+    the stored one and the shared in-memory pool is the stored pool of that position (on the ledger) -/
+def syncedW (w : W) : Bool :=
+  (match getPoolL w.s.pools w.pool.sym with
+    | some p0 => sameLedgerB p0 w.pool
+    | none => false) &&
+  (match getMtpL w.s.mtps w.mtp.key with
+    | some m0 => mtpSameB m0 w.mtp
+    | none => false) &&
+  w.mtp.poolSym == w.pool.sym
+
 /-! ### histories -/
 
 /-- what the environment may change between margin operations: parameters and roles (administrator
